@@ -494,7 +494,7 @@ def fuzz_seeds(seed, exclude):
 def genir_small_profile():
     from .. import genir
 
-    return genir.Profile(name="roundtrip-small", undef=True, nonfinite=True, permute_blocks=True, max_blocks=4, max_ins=6, max_funcs=2, split_init=35)
+    return genir.Profile(name="roundtrip-small", undef=True, nonfinite=True, permute_blocks=True, max_blocks=4, max_ins=6, max_funcs=2, split_init=35, dup_args_pct=60)
 
 
 def fuzz_layer(ctx, exclude):
